@@ -7,7 +7,8 @@
 //! case:  Q <cap|u> <ctor> <actions>      ctor: 0 = builder without handler, 1 = builder (capacity, then handler),
 //!                                        2 = builder (handler, then capacity), 3 = QueuingMetricSink::from / ::with_capacity
 //!   actions = comma list of  E<h>[e|l|u|s] (emit on handle h; payload shape: empty string / 100 kB / non-ASCII / bare number) | C<h> (clone h) | D<h> (drop h) | U<h> (h dropped by a thread unwinding from a panic)
-//!             | Rk | Rz | Re<id> | Rp (release the metric in the gate with Ok(len) / Ok(0) / Err(id) / panic) | S (sample counters)
+//!             | Rk | Rz | Re<id> | Ro<errno> | Rp (release the metric in the gate with Ok(len) / Ok(0) / Err(id) /
+//!               Err(from_raw_os_error(errno)) / panic) | S (sample counters)
 //!             | F<h> (flush() on handle h; observation l, or le when it returned an error)
 //!   handles are numbered in creation order, 0 = the original
 //! observation:  A:<per action, comma list>|DL:<delivered>|H:<handled>|X:<final>
@@ -30,6 +31,8 @@ pub enum Outcome {
     Ok,
     /// accepted, answering Ok(0) - what NopMetricSink answers, and what the trait's documentation allows any sink to
     Zero,
+    /// a failure carrying a raw OS error number (what a real socket returns), reported as id 2000 + errno
+    Os(i32),
     Err(u64),
     Panic,
 }
@@ -38,6 +41,8 @@ pub struct GateSt {
     pub inside: Option<String>,
     pub release: Option<Outcome>,
     pub auto: bool,
+    /// in auto mode: panic on every metric whose ordinal is not a multiple of this (0 = never panic)
+    pub auto_panic: usize,
     pub entered: usize,
     pub log: Vec<(String, Outcome, ThreadId)>,
     pub handled: Vec<(u64, usize, ThreadId)>,
@@ -64,6 +69,7 @@ impl Gate {
                 inside: None,
                 release: None,
                 auto: false,
+                auto_panic: 0,
                 entered: 0,
                 log: vec![],
                 handled: vec![],
@@ -97,7 +103,11 @@ impl MetricSink for GatedSink {
             while st.release.is_none() && !st.auto {
                 st = self.gate.cv.wait(st).unwrap();
             }
-            o = st.release.take().unwrap_or(Outcome::Ok);
+            o = st.release.take().unwrap_or(if st.auto && st.auto_panic > 0 && st.entered % st.auto_panic != 0 {
+                Outcome::Panic
+            } else {
+                Outcome::Ok
+            });
             st.inside = None;
             st.log.push((metric.to_string(), o.clone(), thread::current().id()));
             self.gate.cv.notify_all();
@@ -105,6 +115,7 @@ impl MetricSink for GatedSink {
         match o {
             Outcome::Ok => Ok(metric.len()),
             Outcome::Zero => Ok(0),
+            Outcome::Os(n) => Err(io::Error::from_raw_os_error(n)),
             // the io::ErrorKind varies with the payload id (id 8 -> Interrupted, 5 -> WouldBlock, 9 -> Other ...)
             Outcome::Err(id) => Err(io::Error::new(crate::wire::IO_KINDS[id as usize % crate::wire::IO_KINDS.len()], Payload(id))),
             Outcome::Panic => panic!("scripted panic of the wrapped sink"),
@@ -217,7 +228,8 @@ impl Rig {
         let h = move |e: io::Error| {
             let mut st = g.m.lock().unwrap();
             let n = st.log.len();
-            st.handled.push((payload_of(&e).unwrap_or(0), n, thread::current().id()));
+            let id = payload_of(&e).unwrap_or_else(|| e.raw_os_error().map(|n| 2000 + n as u64).unwrap_or(0));
+            st.handled.push((id, n, thread::current().id()));
         };
         if ctor == 2 {
             b = b.with_error_handler(h);
@@ -254,7 +266,7 @@ impl Rig {
         loop {
             // the error handler runs right after the failing call returned: quiescence includes it
             let handler_pending = self.handler
-                && st.log.iter().filter(|(_, o, _)| matches!(o, Outcome::Err(_))).count() > st.handled.len()
+                && st.log.iter().filter(|(_, o, _)| matches!(o, Outcome::Err(_) | Outcome::Os(_))).count() > st.handled.len()
                 && st.inside.is_none();
             let done = if handler_pending {
                 false
@@ -498,8 +510,111 @@ fn run_soak(t: &[&str]) -> String {
     }
 }
 
+/// Panic soak: `QP <cap|u> <metrics> <k>`: one producer emits <metrics> metrics (waiting for room when the queue is
+/// bounded); the wrapped sink panics on every metric whose ordinal is not a multiple of k.  Afterwards: every metric
+/// reached the wrapped sink exactly once and in order, panics() is the number of panics, one more metric is accepted
+/// and delivered, the last drop releases the wrapped sink.  observation: "ok <panics>" or "bad <what>".
+fn run_panic_soak(t: &[&str]) -> String {
+    let cap = if t[1] == "u" { None } else { Some(t[1].parse::<usize>().unwrap()) };
+    let n: usize = t[2].parse().unwrap();
+    let k: usize = t[3].parse().unwrap();
+    let rig = Rig::new(cap, false);
+    {
+        let mut st = rig.gate.m.lock().unwrap();
+        st.auto = true;
+        st.auto_panic = k;
+    }
+    let q = rig.handles[0].as_ref().unwrap().clone();
+    let mut problems: Vec<String> = vec![];
+    let t0 = Instant::now();
+    for i in 0..n {
+        let m = format!("p.{}:1|c", i);
+        loop {
+            match q.emit(&m) {
+                Ok(_) => break,
+                Err(_) if cap.is_some() && t0.elapsed() < Duration::from_secs(25) => thread::yield_now(),
+                Err(_) => {
+                    problems.push(format!("emit {} refused", i));
+                    break;
+                }
+            }
+        }
+        if !problems.is_empty() {
+            break;
+        }
+    }
+    let wait_log = |want: usize| {
+        let deadline = Instant::now() + Duration::from_secs(20);
+        loop {
+            let st = rig.gate.m.lock().unwrap();
+            if st.log.len() >= want || Instant::now() >= deadline {
+                return st.log.len();
+            }
+            drop(st);
+            thread::sleep(Duration::from_millis(1));
+        }
+    };
+    let got = wait_log(n);
+    if got != n {
+        problems.push(format!("{} metrics accepted, the wrapped sink has seen {} ({} panics counted)", n, got, q.panics()));
+    }
+    let expected_panics = (1..=n).filter(|i| i % k != 0).count() as u64;
+    // the count is incremented by the dying worker's sentinel: give the last one a moment
+    let deadline = Instant::now() + Duration::from_secs(5);
+    while q.panics() < expected_panics && Instant::now() < deadline {
+        thread::sleep(Duration::from_millis(1));
+    }
+    if q.panics() != expected_panics {
+        problems.push(format!("panics() = {} after {} panics", q.panics(), expected_panics));
+    }
+    {
+        let st = rig.gate.m.lock().unwrap();
+        for (i, (m, _, _)) in st.log.iter().enumerate() {
+            if *m != format!("p.{}:1|c", i) {
+                problems.push(format!("delivery {} is {:?}", i, m));
+                break;
+            }
+        }
+    }
+    {
+        let mut st = rig.gate.m.lock().unwrap();
+        st.auto_panic = 0;
+    }
+    if q.emit("after:1|c").is_err() {
+        problems.push("the sink no longer accepts metrics".to_string());
+    } else if wait_log(n + 1) != n + 1 {
+        problems.push("a metric accepted after the panics was not delivered".to_string());
+    }
+    drop(q);
+    let mut rig = rig;
+    rig.handles.clear();
+    {
+        let deadline = Instant::now() + Duration::from_millis(3000);
+        let mut st = rig.gate.m.lock().unwrap();
+        while !st.dropped {
+            let now = Instant::now();
+            if now >= deadline {
+                break;
+            }
+            let (g, _) = rig.gate.cv.wait_timeout(st, deadline - now).unwrap();
+            st = g;
+        }
+        if !st.dropped {
+            problems.push("the wrapped sink was not dropped after the last handle was dropped".to_string());
+        }
+    }
+    if problems.is_empty() {
+        format!("ok {}", expected_panics)
+    } else {
+        format!("bad {}", problems.join(" / "))
+    }
+}
+
 pub fn run_case(line: &str) -> String {
     let t: Vec<&str> = line.split_whitespace().collect();
+    if t[0] == "QP" {
+        return run_panic_soak(&t);
+    }
     if t[0] == "QS" {
         return run_soak(&t);
     }
@@ -590,6 +705,7 @@ pub fn run_case(line: &str) -> String {
                     "k" => Outcome::Ok,
                     "z" => Outcome::Zero,
                     "p" => Outcome::Panic,
+                    _ if arg.starts_with('o') => Outcome::Os(arg[1..].parse().unwrap()),
                     _ => Outcome::Err(arg[1..].parse().unwrap()),
                 };
                 let is_panic = outcome == Outcome::Panic;
@@ -665,6 +781,7 @@ pub fn run_case(line: &str) -> String {
                     idx(m),
                     match o {
                         Outcome::Ok | Outcome::Zero => "k".to_string(),
+                        Outcome::Os(n) => format!("e{}", 2000 + *n as i64),
                         Outcome::Err(id) => format!("e{}", id),
                         Outcome::Panic => "p".to_string(),
                     }
@@ -1007,6 +1124,7 @@ mod sched {
                         accepted.iter().position(|x| x == m).map(|i| i.to_string()).unwrap_or_else(|| "?".to_string()),
                         match o {
                             Outcome::Ok | Outcome::Zero => "k".to_string(),
+                            Outcome::Os(n) => format!("e{}", 2000 + *n as i64),
                             Outcome::Err(id) => format!("e{}", id),
                             Outcome::Panic => "p".to_string(),
                         }
